@@ -9,9 +9,14 @@ PROP = dict(
                "the surviving steps written into a fresh directory; an independent reference codec checks SEQNUM order and content.",
     level_note="Crash model: a prefix of the bytes of the file survives (append-only stream after resize_file; no reordering by the OS "
                "or the storage). Array contents per write are random (3-6 arrays, lengths biased to 0..11 and to the 1000/105-element "
-               "record boundaries); reals are multiples of 1/16 so that formatted files hold them exactly. Longer histories are sampled.",
+               "record boundaries; arrays of one family - cell, well, group - share their length as in real files); reals are multiples "
+               "of 1/16 so that formatted files hold them exactly. Longer histories are sampled. poison=1: before every library call "
+               "on a cut file the harness fills its own dead stack area with the big-endian length word of the record the cut falls "
+               "into, so that a reader which goes on after a short read meets the value that is worst for it instead of whatever "
+               "earlier calls left behind (the outcome becomes a function of the case; correct code never reads that memory).",
     technique="sequential reference model + fresh-file differential after every write; exhaustive prefix (crash point) enumeration with an "
-              "exact-or-error oracle on every (step, array); sanitizer replica of the truncation readers incl. listOfRstArrays",
+              "exact-or-error oracle on every (step, array) under a hostile (pre-filled) stack; sanitizer replica of the truncation "
+              "readers incl. listOfRstArrays",
     rule="c08_unified: idx < 2*sum_{l<=L}(N+1)^l enumerates every sequence of 1..L writes over report steps 0..N x {unformatted, "
          "formatted} (quick L=4,N=4: 1560; thorough L=6,N=5: 111972), later indices are random sequences of L+1..Lrandom writes "
          "(mostly advancing, with rewinds); non-trivial: at least two writes. c08_trunc / c08_trunc_asan: file of a random sequence "
@@ -22,9 +27,9 @@ PROP = dict(
         dict(harness="c08_unified", flavour="plain", cases={Q: 1560 + 2440, T: 111972 + 300000}, timeout={Q: 600, T: 5400},
              args=["mode=seq"], tier_args={Q: ["L=4", "N=4", "Lrandom=8", "Nrandom=9"], T: ["L=6", "N=5", "Lrandom=10", "Nrandom=12"]}),
         dict(id="c08_trunc", harness="c08_unified", flavour="plain", cases={Q: 128 * 16, T: 3000 * 16}, timeout={Q: 600, T: 5400},
-             args=["mode=trunc", "chunks=16"], tier_args={Q: ["L=4", "N=5"], T: ["L=6", "N=6", "every_state=1"]}),
+             args=["mode=trunc", "chunks=16", "poison=1"], tier_args={Q: ["L=4", "N=5"], T: ["L=6", "N=6", "every_state=1"]}),
         dict(id="c08_trunc_asan", harness="c08_unified", flavour="asan", cases={Q: 160 + 160, T: 2400 + 2400}, timeout={Q: 600, T: 5400},
-             args=["mode=trunc", "chunks=16"], tier_args={Q: ["L=4", "N=5", "lra_cases=160"], T: ["L=6", "N=6", "every_state=1", "lra_cases=2400"]},
+             args=["mode=trunc", "chunks=16", "poison=1"], tier_args={Q: ["L=4", "N=5", "lra_cases=160"], T: ["L=6", "N=6", "every_state=1", "lra_cases=2400"]},
              max_restarts=100000),
     ],
     min_nontrivial={Q: 5500, T: 400000},
@@ -45,5 +50,6 @@ PROP = dict(
         "histories longer than Lrandom writes and report-step numbers above a few dozen; LGR sections in restart files",
     ],
     assumptions=["a crash leaves a prefix of what the process wrote after the resize_file (append-only stream)",
+                 "uninitialised locals of the readers may hold any value; the harness chooses the record length of the cut record",
                  "array names within one report step are unique (reads are by name, occurrence 0)"],
 )
